@@ -33,36 +33,62 @@ def regenerate(R):
     return None
 
 
+def _own(src, e):
+    """the expression below the subtree of one source"""
+    return "/" + src + (e if e.startswith("/") else "/" + e)
+
+
 def gen_conc_case(rng):
-    base = gen_repo.gen_repo_case(rng, max_ops=4)
-    changes = [o for o in base["ops"] if o["op"] != "find"]
-    exprs = sorted({rt["path"] for o in changes if "rules" in o for r in o["rules"] for rt in r["routes"]}) or ["/a"]
-    init = changes[:1]
-    nw = rng.choice([2, 2, 3])
-    writers = []
+    """2-3 writers changing three sources concurrently, 1-2 readers looking up while they do. Most expressions of a
+    source live below its own subtree (so that changes succeed and several sources coexist), some are shared (so that
+    the one-source-per-expression constraint rejects changes); updates and deletions mostly hit loaded sources; some
+    rule sets are large (a longer window between the first and the last route of a change)."""
+    base = gen_repo.http_exprs(rng)
     srcs = ["s1", "s2", "s3"]
-    live = {o["src"]: o["rules"] for o in init if o["op"] == "add"}
-    for w in range(nw):
+    shared = rng.sample(base, min(len(base), rng.choice([0, 1, 2])))
+    pool = {s: [_own(s, e) for e in rng.sample(base, min(len(base), rng.choice([2, 3, 4])))] + shared for s in srcs}
+    nid = [0]
+
+    def rules_for(src, big=False):
+        n = rng.choice([8, 15, 25]) if big else rng.choice([1, 1, 2, 3])
+        out = []
+        for _ in range(n):
+            nid[0] += 1
+            out.append(gen_repo.gen_rule(rng, "r%d" % nid[0], pool[src]))
+        return out
+
+    init, live = [], set()
+    for s in rng.sample(srcs, rng.choice([1, 2, 2])):
+        init.append({"op": "add", "src": s, "rules": rules_for(s)})
+        live.add(s)
+    writers = []
+    for w in range(rng.choice([2, 2, 3])):
         ops = []
         for _ in range(rng.choice([1, 2, 2])):
             r = rng.random()
-            src = rng.choice(srcs)
-            if r < 0.45:
-                rules = [gen_repo.gen_rule(rng, "w%d_%d" % (w, len(ops)), exprs) for _ in range(rng.choice([1, 2]))]
-                ops.append({"op": "add", "src": src, "rules": rules})
+            big = rng.random() < 0.2
+            if r < 0.35:
+                src = rng.choice([x for x in srcs if x not in live] or srcs)
+                ops.append({"op": "add", "src": src, "rules": rules_for(src, big)})
+                live.add(src)
             elif r < 0.8:
-                rules = [gen_repo.gen_rule(rng, "u%d_%d" % (w, len(ops)), exprs) for _ in range(rng.choice([1, 2]))]
-                ops.append({"op": "upd", "src": src, "rules": rules})
+                src = rng.choice(sorted(live)) if rng.random() < 0.85 else rng.choice(srcs)
+                ops.append({"op": "upd", "src": src, "rules": rules_for(src, big)})
             else:
+                src = rng.choice(sorted(live)) if rng.random() < 0.85 else rng.choice(srcs)
                 ops.append({"op": "del", "src": src})
         writers.append(ops)
-    targets = [gen_repo.gen_target(rng, exprs) for _ in range(3)]
-    readers = []
-    for _ in range(rng.choice([1, 2])):
-        readers.append([{"op": "find", "method": rng.choice(gen_repo.METHODS[:2]), "host": rng.choice(gen_repo.HOSTS[:2]),
-                         "target": rng.choice(targets)} for _ in range(rng.choice([3, 5, 8]))])
-    return {"fam": "conc", "dr": base["dr"], "dr_bt": base["dr_bt"], "init": init, "writers": writers,
-            "readers": readers, "seed": rng.randrange(1 << 30)}
+    # lookups aimed at what the changes add or remove
+    exprs = sorted({rt["path"] for ops in [init] + writers for o in ops for r in o.get("rules", []) for rt in r["routes"]})
+    targets = [gen_repo.gen_target(rng, exprs) for _ in range(rng.choice([3, 4, 6]))]
+
+    def q(t):
+        return {"op": "find", "method": rng.choice(gen_repo.METHODS[:2]), "host": rng.choice(gen_repo.HOSTS[:2]), "target": t}
+
+    readers = [[q(rng.choice(targets)) for _ in range(rng.choice([3, 5, 8]))] for _ in range(rng.choice([1, 2]))]
+    final = [q(gen_repo.gen_target(rng, [e])) for e in exprs[:12]] + [q(t) for t in targets]
+    return {"fam": "conc", "dr": rng.random() < 0.5, "dr_bt": rng.random() < 0.5, "init": init, "writers": writers,
+            "readers": readers, "laps": rng.choice([1, 3, 6]), "final": final, "seed": rng.randrange(1 << 30)}
 
 
 def orders(writers_hist):
@@ -90,18 +116,32 @@ def orders(writers_hist):
             prefix.pop()
 
     rec([], items)
-    return res[:200]
+    return res[:2000]
 
 
 def check_history(case, hist):
-    """returns (None, n_orders) if linearizable, else (explanation, n_orders)"""
+    """returns (None, n_orders, stats) if linearizable, else (explanation, n_orders, stats).
+
+    Some total order of the changes (consistent with program order and real-time precedence) must explain
+    * the result of every change (the sequential model applied in that order),
+    * every lookup as the model's answer after a prefix of that order which contains every change that finished
+      before the lookup started and none that started after it ended — with prefixes that never shrink along the
+      real-time order of the lookups (a reader never sees an older state after a newer one),
+    * the results of the initial loads and the lookups made after everything has finished (the final state)."""
     W, Rd = hist["writers"], hist["readers"]
-    reads = [(r, k) for r, ops in enumerate(Rd) for k in range(len(ops))]
+    lookups = []          # (end, start, query index, observed)
     queries = []
-    for (r, k) in reads:
-        q = case["readers"][r][k]
-        if q not in queries:
-            queries.append(q)
+    for r, ops in enumerate(Rd):
+        for o in ops:
+            qd = case["readers"][r][o.get("k", 0)]
+            if qd not in queries:
+                queries.append(qd)
+            lookups.append((o["e"], o["s"], queries.index(qd), o["res"]))
+    finals = case.get("final", [])
+    for qd in finals:
+        if qd not in queries:
+            queries.append(qd)
+    lookups.sort()
     ords = orders(W)
     seq_cases = []
     for o in ords:
@@ -112,54 +152,82 @@ def check_history(case, hist):
         seq_cases.append({"fam": "repo", "dr": case["dr"], "dr_bt": case["dr_bt"], "ops": ops})
     model = [vlib.res_of(m) for m in vlib.run_cases(vlib.driver_cmd(), seq_cases)]
     ninit, nq = len(case["init"]), len(queries)
+    stats = {"lookups": len(lookups), "lookups_that_could_fail": 0, "final_probes": len(finals)}
     why = []
+    counted = False
     for o, m in zip(ords, model):
         if not isinstance(m, list):
             why.append("model error")
             continue
-        # results of the changes in this order
+
+        def at(p, qi):
+            base = ninit if p == 0 else ninit + nq + (p - 1) * (nq + 1) + 1
+            return m[base + qi]
+
+        if not counted:
+            counted = True
+            for (_, _, qi, _) in lookups:
+                if len({json.dumps(vlib.canon(at(p, qi)), sort_keys=True) for p in range(len(o) + 1)}) > 1:
+                    stats["lookups_that_could_fail"] += 1
         good = True
+        if [x for x in hist.get("init", [])] != m[:ninit]:
+            good = False
+            why.append(f"initial loads answered {hist.get('init')}, sequentially {m[:ninit]}")
         for pos, (w, k) in enumerate(o):
+            if not good:
+                break
             got = W[w][k]["res"]
             want = m[ninit + nq + pos * (nq + 1)]
             if got != want:
                 good = False
                 why.append(f"order {o}: change {case['writers'][w][k]['op']} of writer {w} returned {got}, sequentially {want}")
-                break
         if not good:
             continue
-        for (r, k) in reads:
-            obs = Rd[r][k]
-            qi = queries.index(case["readers"][r][k])
-            lo = sum(1 for (w, kk) in o if W[w][kk]["e"] < obs["s"])          # certainly committed before
-            hi = len(o) - sum(1 for (w, kk) in o if W[w][kk]["s"] > obs["e"])  # possibly committed before
-            # positions must be a prefix: the lo ops certainly before must be the first ones considered
-            cands = []
-            for p in range(0, len(o) + 1):
+        chosen = []       # (end of the lookup, position chosen)
+        for (e, s0, qi, res) in lookups:
+            lo = max([p for (e2, p) in chosen if e2 < s0], default=0)
+            ok = None
+            for p in range(lo, len(o) + 1):
                 pref = o[:p]
-                if any(W[w][kk]["e"] < obs["s"] and (w, kk) not in pref for (w, kk) in o):
+                if any(W[w][kk]["e"] < s0 and (w, kk) not in pref for (w, kk) in o):
                     continue
-                if any(W[w][kk]["s"] > obs["e"] and (w, kk) in pref for (w, kk) in o):
+                if any(W[w][kk]["s"] > e and (w, kk) in pref for (w, kk) in o):
                     continue
-                cands.append(p)
-            def at(p):
-                base = ninit if p == 0 else ninit + nq + (p - 1) * (nq + 1) + 1
-                return m[base + qi]
-            if not any(vlib.canon(at(p)) == vlib.canon(obs["res"]) for p in cands):
+                if vlib.canon(at(p, qi)) == vlib.canon(res):
+                    ok = p
+                    break
+            if ok is None:
                 good = False
-                why.append(f"order {o}: lookup {case['readers'][r][k]['target']} answered {json.dumps(obs['res'])[:160]}, "
-                           f"no admissible prefix of the commit order gives that")
+                why.append(f"order {o}: lookup {queries[qi]['target']} answered {json.dumps(res)[:160]}: no admissible "
+                           f"prefix of the commit order (not older than what an earlier lookup has seen) gives that")
+                break
+            chosen.append((e, ok))
+        if not good:
+            continue
+        for qd, res in zip(finals, hist.get("final", [])):
+            if vlib.canon(at(len(o), queries.index(qd))) != vlib.canon(res):
+                good = False
+                why.append(f"order {o}: after all changes lookup {qd['target']} answers {json.dumps(res)[:160]}, the "
+                           f"sequential model {json.dumps(at(len(o), queries.index(qd)))[:160]}")
                 break
         if good:
-            return None, len(ords)
-    return "; ".join(why[:3]), len(ords)
+            return None, len(ords), stats
+    return "; ".join(why[:3]), len(ords), stats
+
+
+def overlays(R):
+    """mutexes with scheduling jitter in the repository, scheduling points inside the tree operations"""
+    ov = vlib.jitter_copy(R.tmp, "internal/rules/repository_impl.go")
+    ov.update(vlib.yield_copy(R.tmp, "internal/x/radixtree/tree.go", ["addNode", "delNode"]))
+    return ov
 
 
 def run(R):
-    err = regenerate(R)
-    lean_ok = vlib.step_lean(R, PID)
+    with vlib.LeanLock():      # nobody may rewrite the generated protocol between extraction and build
+        err = regenerate(R)
+        lean_ok = vlib.step_lean(R, PID)
     race = R.tier == "thorough"
-    ov = vlib.jitter_copy(R.tmp, "internal/rules/repository_impl.go")
+    ov = overlays(R)
     exe, log = vlib.build_harness(R.tmp, extra_overlay=ov, race=race)
     if exe is None:
         R.violation("harness does not build against /repo", {"build_log": log[-3000:]}, no_input=True)
@@ -171,6 +239,8 @@ def run(R):
     hists = vlib.run_cases([exe], cases, env=env, timeout=1500)
     nlin, norders, overlap, nontriv = 0, 0, 0, set()
     races = 0
+    tot = {"lookups": 0, "lookups_that_could_fail": 0, "final_probes": 0, "changes": 0, "changes_rejected": 0,
+           "histories_two_sources_changed_concurrently": 0}
     for c, h in zip(cases, hists):
         if isinstance(h, dict) and "crash" in h:
             kind = "data race reported by the race detector" if "DATA RACE" in h["crash"] or h.get("rc") == 66 else \
@@ -185,10 +255,18 @@ def run(R):
         if not isinstance(h, dict) or "writers" not in h:
             R.violation("harness error in concurrent run: " + json.dumps(h)[:300], {"case": c, "result": h}, no_input=True)
             continue
-        why, no = check_history(c, h)
+        why, no, st = check_history(c, h)
         norders += no
         nlin += 1
+        for k in ("lookups", "lookups_that_could_fail", "final_probes"):
+            tot[k] += st[k]
         ws = [o for w in h["writers"] for o in w]
+        tot["changes"] += len(ws)
+        tot["changes_rejected"] += sum(1 for o in ws if o["res"] != "ok")
+        okw = [(dict(o), c["writers"][wi][k]["src"]) for wi, w in enumerate(h["writers"]) for k, o in enumerate(w)
+               if o["res"] == "ok"]
+        if any(a["s"] < b["e"] and b["s"] < a["e"] and sa != sb for (a, sa), (b, sb) in itertools.combinations(okw, 2)):
+            tot["histories_two_sources_changed_concurrently"] += 1
         conc_w = any(a["s"] < b["e"] and b["s"] < a["e"] for a, b in itertools.combinations(ws, 2))
         rs = [o for r in h["readers"] for o in r]
         conc_r = any(a["s"] < b["e"] and b["s"] < a["e"] for a in ws for b in rs)
@@ -204,11 +282,13 @@ def run(R):
                 "(3-8 lookups each) against the real repository compiled from an automatically rewritten copy of "
                 "repository_impl.go whose mutexes add scheduling jitter; every history (logical start/end stamps) "
                 "is checked for linearizability: some commit order consistent with program and real-time order must "
-                "explain every change result and every lookup as the sequential model's answer after an admissible "
-                "prefix. Non-trivial = history in which writer operations overlap each other and a lookup; distinct "
-                "by hash of the scenario",
+                "explain every change result, every lookup as the sequential model's answer after an admissible "
+                "prefix (prefixes never shrink along the real-time order of lookups), the initial loads and the "
+                "lookups made after everything has finished. Non-trivial = history in which writer operations "
+                "overlap each other and a lookup; distinct by hash of the scenario",
         "histories_checked": nlin, "candidate_commit_orders": norders, "histories_with_overlap": overlap,
-        "race_detector": race, "crashes_or_races": races, "jitter_overlay": bool(ov), "corpus_cases": len(corpus),
+        "race_detector": race, "crashes_or_races": races, "jitter_overlay": sorted(os.path.basename(k) for k in ov),
+        "corpus_cases": len(corpus), **tot,
         "samples": [cases[len(corpus)]] if len(cases) > len(corpus) else [cases[0]],
     })
     R.assumptions += [
@@ -221,6 +301,13 @@ def run(R):
         "Tree.Clone is a deep copy (a shallow copy would let writers mutate the published index); validated by the "
         "linearizability runs, not proved",
     ]
+    if len(ov) < 2:
+        R.violation("the scheduling overlay could not be applied (repository_impl.go declares no sync mutex, or the tree "
+                    "has no addNode/delNode): the concurrent runs would be weaker than claimed",
+                    {"overlay": sorted(ov)}, no_input=True)
+    if nlin and (overlap == 0 or tot["lookups_that_could_fail"] == 0):
+        R.violation("the concurrent runs did not overlap (single CPU?): nothing was tested",
+                    {"histories_with_overlap": overlap, **tot}, no_input=True)
     if err:
         R.violation("protocol extraction from repository_impl.go failed: " + err, {"error": err}, no_input=True)
     if not lean_ok:
@@ -234,14 +321,17 @@ def run(R):
 def replay(R, path):
     with open(path) as fh:
         p = json.load(fh)
-    ov = vlib.jitter_copy(R.tmp, "internal/rules/repository_impl.go")
+    ov = overlays(R)
     exe, log = vlib.build_harness(R.tmp, extra_overlay=ov)
     R.coverage.update({"obligations": 1, "discharged": 1, "checker_cmd": "replay", "trusted_base": []})
+    if "case" not in p:
+        print("this replay names a theorem / tie that no longer checks, there is no input to run:", p.get("what", ""))
+        return
     bad = 0
     for k in range(200):
         c = dict(p["case"], seed=k)
         h = vlib.run_cases([exe], [c])[0]
-        why, _ = check_history(c, h) if isinstance(h, dict) and "writers" in h else ("crash", 0)
+        why = check_history(c, h)[0] if isinstance(h, dict) and "writers" in h else "crash"
         if why:
             bad += 1
             print("not linearizable with seed", k, ":", why[:300])
